@@ -258,11 +258,11 @@ impl Sibling {
                     let t = line.trim_start();
                     let opens = t.starts_with("packet ") || t.starts_with("struct ") || t.starts_with("enum ") || t.starts_with("group ");
                     if opens && rng.below(2) == 0 {
-                        out.push_str(&format!("/// documentation of the declaration at line {i}\n/// second line\n"));
+                        out.push_str(&format!("/// documentation of the declaration at line {i} — naïve café, 日本語\n/// second line\n"));
                     }
                     out.push_str(line);
                     if opens && line.trim_end().ends_with('{') && rng.below(2) == 0 {
-                        out.push_str(&format!("    /// inner documentation {i}\n    // plain comment\n"));
+                        out.push_str(&format!("    /// inner documentation {i}\n    // plain comment “ünïcödé”\n"));
                     }
                 }
                 out
